@@ -5,6 +5,8 @@ pub mod vp_std {
         ensures r == (if a.is_some() { a } else { b });
     pub assume_specification<T, U> [ Option::<T>::and ] (a: Option<T>, b: Option<U>) -> (r: Option<U>)
         ensures r == (if a.is_some() { b } else { None });
+    pub assume_specification<'a, T: Copy> [ Option::<&'a T>::copied ] (a: Option<&'a T>) -> (r: Option<T>)
+        ensures r == (match a { Some(x) => Some(*x), None => None });
     pub assume_specification<T> [ Option::<T>::xor ] (a: Option<T>, b: Option<T>) -> (r: Option<T>)
         ensures r == (if a.is_some() && b.is_none() { a } else if a.is_none() && b.is_some() { b } else { None });
 }
